@@ -376,6 +376,8 @@ def corner_programs():
 def gen_rows(rng, echo=False):
     """echo: some data rows repeat the header row's own t / u cells (values first seen on line 0 recur)"""
     rows = [HDR[:]]
+    if echo and rng.random() < 0.25:
+        rows = [[]] * rng.choice([1, 2]) + rows       # the file begins with blank lines (only for csvpaths that may scan the header row)
     for i in range(1, rng.choice([1, 2, 4, 6, 8, 10, 12])):
         if rng.random() < 0.12:
             rows.append([])
